@@ -34,6 +34,14 @@ Theorem C06_success_means_valid : forall inp d, input_wf inp -> build inp = Ok d
 Proof. exact (build_valid gen_bfacts C06_generated_guards_ok). Qed.
 Print Assumptions C06_success_means_valid.
 
+(* the arrays of the index respect the format limit as well: the ids of all indexed entries with one (byte-identical)
+   surface form one array of the word-id table, and success means that none of them has more than 127 elements -- under
+   the facts that IndexBuilder::build_word_id_table writes every such array through write_u32_array and that
+   write_u32_array rejects more than 127 elements (both part of C06_generated_guards_ok) *)
+Theorem C06_index_arrays_within_limit : forall inp d, build inp = Ok d -> index_lists_ok d = true.
+Proof. exact (build_index_ok gen_bfacts C06_generated_guards_ok). Qed.
+Print Assumptions C06_index_arrays_within_limit.
+
 (* a compiled dictionary always has the row and column of the BOS/EOS id 0 (the well-formedness C20 assumes of a grammar) *)
 Theorem C06_compiled_matrix_nonempty : forall inp d, input_wf inp -> build inp = Ok d -> 1 <= d_nl d /\ 1 <= d_nr d.
 Proof. exact (compiled_matrix_nonempty gen_bfacts C06_generated_guards_ok). Qed.
@@ -152,6 +160,12 @@ Theorem C06_history_success_means_valid : forall ops st, Inv st -> 0 <= hs_nsys 
        dict_valid d = true /\ stores_in_range d = true.
 Proof. rewrite history_is_following. exact (history_success_means_valid gen_bfacts C06_generated_guards_ok). Qed.
 Print Assumptions C06_history_success_means_valid.
+
+(* ... and its index arrays are within the limit, however the rows were spread over read_lexicon calls *)
+Theorem C06_history_index_arrays_within_limit : forall ops st i d,
+  nth_error (history st ops) i = Some (Ok (Some d)) -> index_lists_ok d = true.
+Proof. exact (history_index_ok gen_bfacts C06_generated_guards_ok _ _). Qed.
+Print Assumptions C06_history_index_arrays_within_limit.
 
 (* the invariant holds for a fresh system-dictionary builder and for a user-dictionary builder on any loaded grammar *)
 Theorem C06_fresh_builders_satisfy_invariant :
